@@ -1,5 +1,6 @@
 //! The checks, one entry point per property.
 
+pub mod alias;
 pub mod common;
 pub mod enumerators;
 pub mod grids;
@@ -50,6 +51,10 @@ pub fn replay_other(_prop: &str, kind: &str, case: &serde_json::Value) -> Option
             let n = case.get("n")?.as_u64()? as usize;
             let mix = case.get("mix")?.as_u64()? as usize;
             Some(grids::c12_loop_case(n, mix).map(|v| vec![(0, v.clause, v.detail)]).unwrap_or_default())
+        }
+        "alias" => {
+            let d = alias::alias_case(case.get("state")?.as_u64()? as u8, case.get("op")?.as_u64()? as u8, case.get("idx")?.as_u64()? as u8);
+            Some(d.map(|(c, d)| vec![(0, c, d)]).unwrap_or_default())
         }
         "string_extend" => {
             let d = enumerators::string_extend_case(case.get("items")?.as_u64()? as usize, case.get("k")?.as_u64()? as u16, case.get("hinted")?.as_bool()?);
